@@ -9,3 +9,8 @@ pub(crate) use crate::layer::verif_overlay::mode_id;
 // NOTE: `blend_mode_to_blend_fn` cannot be compiled by Kani 0.68 (internal compiler error in
 // codegen_local_fndef / assert_is_rust_box_like on `Box::new(<fn item>) as Box<dyn Fn>`), and Verus has
 // no `dyn`. The dispatch table is therefore covered by the bounded-exec obligation x_mode_table.
+
+/// access point for Engine X: the private dispatch table
+pub(crate) fn table(mode: BlendMode) -> Box<dyn Fn(Color8, Color8, u8) -> Color8> {
+    blend_mode_to_blend_fn(mode)
+}
